@@ -57,8 +57,8 @@ Definition cmp_big (n1 : bool) (d1 : bytes) (n2 : bool) (d2 : bytes) : compariso
   match n1, n2 with
   | false, true => Gt
   | true, false => Lt
-  | false, false => thn (cmp_len d1 d2) (cmp_bytes d1 d2)
-  | true, true => CompOpp (thn (cmp_len d1 d2) (cmp_bytes d1 d2))
+  | false, false => thn (cmp_len d1 d2) (cmp_bytes (rev d1) (rev d2))
+  | true, true => CompOpp (thn (cmp_len d1 d2) (cmp_bytes (rev d1) (rev d2)))
   end.
 
 Definition cmp_int_float (i : Z) (fb : N) : comparison :=
@@ -88,13 +88,14 @@ Section WithRank.
       | x :: r1, y :: r2 => match cmp x y with Eq => go r1 r2 | c => c end
       | _, _ => Eq
       end in
-    let zipm := fix gom (m1 m2 : list (term * term)) {struct m1} : comparison :=
+    let zipk := fix gok (m1 m2 : list (term * term)) {struct m1} : comparison :=
       match m1, m2 with
-      | (k1, v1) :: r1, (k2, v2) :: r2 =>
-          match cmp k1 k2 with
-          | Eq => match cmp v1 v2 with Eq => gom r1 r2 | c => c end
-          | c => c
-          end
+      | kv1 :: r1, kv2 :: r2 => match cmp (fst kv1) (fst kv2) with Eq => gok r1 r2 | c => c end
+      | _, _ => Eq
+      end in
+    let zipv := fix gov (m1 m2 : list (term * term)) {struct m1} : comparison :=
+      match m1, m2 with
+      | kv1 :: r1, kv2 :: r2 => match cmp (snd kv1) (snd kv2) with Eq => gov r1 r2 | c => c end
       | _, _ => Eq
       end in
     match (rank a ?= rank b) with
@@ -120,7 +121,7 @@ Section WithRank.
       | TPort n1 i1 c1 _, TPort n2 i2 c2 _ => thn (cmp_bytes n1 n2) (thn (i1 ?= i2) (c1 ?= c2))
       | TPid p1, TPid p2 => cmp_pid p1 p2
       | TTuple l1, TTuple l2 => thn (cmp_len l1 l2) (zip l1 l2)
-      | TMap m1, TMap m2 => thn (cmp_len m1 m2) (zipm m1 m2)
+      | TMap m1, TMap m2 => thn (cmp_len m1 m2) (thn (zipk m1 m2) (zipv m1 m2))
       | TNil, TNil => Eq
       | TList l1, TList l2 => thn (zip l1 l2) (cmp_len l1 l2)
       | TList l1, TNil => match l1 with [] => Eq | _ => Gt end
@@ -131,6 +132,10 @@ Section WithRank.
       | TBin x, TStr y => cmp_bytes x y
       | TStr x, TBin y => cmp_bytes x y
       | TBitBin x kx, TBitBin y ky => thn (cmp_bytes x y) (kx ?= ky)
+      | TBin x, TBitBin y ky => thn (cmp_bytes x y) (8 ?= ky)
+      | TBitBin x kx, TBin y => thn (cmp_bytes x y) (kx ?= 8)
+      | TStr x, TBitBin y ky => thn (cmp_bytes x y) (8 ?= ky)
+      | TBitBin x kx, TStr y => thn (cmp_bytes x y) (kx ?= 8)
       | _, _ => Eq
       end
     | c => c
